@@ -244,10 +244,17 @@ def _run_path(reg: Registry, con: Contract, func: Any, defcls: Any, p: Path, it:
     for c in con.of("verify_types"):  # the body is verified on these (sub-)domains; the annotation is the call-site domain
         for kw in c.node.keywords:
             vtypes[kw.arg] = eval(compile(ast.Expression(kw.value), "<verify_types>", "eval"), con.module.__dict__)  # pylint: disable=eval-used
+    from . import api as _api
+
     for name in con.params:
         if name not in vtypes:
             raise Unsupported(f"parameter {name} of the contract has no type annotation")
+        if isinstance(vtypes[name], _api.Alias):
+            continue
         bound[name] = reg.make_symbolic(it, name, vtypes[name])
+    for name in con.params:
+        if isinstance(vtypes[name], _api.Alias):
+            bound[name] = it.ev(ast.parse(vtypes[name].path, mode="eval").body, Frame(dict(bound), con.module.__dict__, spec=True))
     p.entry_bound = copy.deepcopy(bound)  # type: ignore[attr-defined]  # the pre-state (symbolic leaves are shared)
     fr = reg.spec_frame(con, bound)
     fr.result = UNBOUND
